@@ -106,6 +106,92 @@ func c10MidHandshake(c *Ctx) {
 	}
 }
 
+// the dialing side of the same: the socket has dialled a peer that accepted the connection and says nothing (or answers
+// only after the socket was closed).  Socket.Close ends the connection attempt: the peer sees the connection closed and
+// no goroutine of the library remains.
+func c10DialMidHandshake(c *Ctx) {
+	c10settle()
+	for _, tr := range e2eTransports {
+		if tr.name != "tcp" && tr.name != "ipc" {
+			continue
+		}
+		for _, asynch := range []bool{true, false} {
+			network, laddr, url := "tcp", "127.0.0.1:0", ""
+			if tr.name == "ipc" {
+				network = "unix"
+				laddr = fmt.Sprintf("/tmp/verif-c10-dialmid-%d-%v.sock", time.Now().UnixNano()%1000000, asynch)
+			}
+			ln, err := net.Listen(network, laddr)
+			if err != nil {
+				continue
+			}
+			if tr.name == "ipc" {
+				url = "ipc://" + laddr
+			} else {
+				url = "tcp://" + ln.Addr().String()
+			}
+			accepted := make(chan net.Conn, 4)
+			go func() {
+				for {
+					cn, err := ln.Accept()
+					if err != nil {
+						return
+					}
+					accepted <- cn // silent: never sends its header
+				}
+			}()
+			s, _ := pair.NewSocket()
+			_ = s.SetOption(mangos.OptionDialAsynch, asynch)
+			dialDone := make(chan error, 1)
+			go func() { dialDone <- s.Dial(url) }()
+			var conn net.Conn
+			select {
+			case conn = <-accepted:
+			case <-time.After(time.Second):
+			}
+			if conn == nil {
+				_ = s.Close()
+				_ = ln.Close()
+				continue
+			}
+			time.Sleep(40 * time.Millisecond) // the library has sent its header and waits for ours
+			class := fmt.Sprintf("close-dial-midhandshake %s asynch=%v", tr.name, asynch)
+			t0 := time.Now()
+			done := make(chan error, 1)
+			go func() { done <- s.Close() }()
+			select {
+			case err := <-done:
+				c10Line(c, class+" close", "close", vp_errname(err))
+			case <-time.After(2 * time.Second):
+				c10Line(c, class+" close", "close", "hang")
+				c.Violate(fmt.Sprintf("close (%s): Socket.Close did not return within 2 s while an outbound connection was shaking hands", tr.name), nil)
+			}
+			obs := peerSees(conn, 700*time.Millisecond)
+			c10Line(c, class+" conn", "midhandshake-conn", obs)
+			if obs != "closed" {
+				c.Violate(fmt.Sprintf("close (%s, dialling, DIAL-ASYNCH %v): %v after Socket.Close returned, the connection the socket had dialled (peer silent, handshake not completed) is still open on the library's side", tr.name, asynch, time.Since(t0).Round(time.Millisecond)),
+					map[string]interface{}{"transport": tr.name, "history": []string{"a raw listener accepts and says nothing", "Socket.Dial (DIAL-ASYNCH " + fmt.Sprint(asynch) + ")", "Socket.Close", "peer reads: no EOF within 700 ms"}})
+			}
+			if !asynch {
+				select {
+				case <-dialDone:
+				case <-time.After(2 * time.Second):
+					c.Violate(fmt.Sprintf("close (%s): a synchronous Dial still shaking hands with a silent peer did not return within 2 s of Socket.Close", tr.name), nil)
+				}
+			}
+			libs := c10settle()
+			c10Line(c, class+" goroutines", "goroutines", fmt.Sprint(len(libs)))
+			if len(libs) > 0 {
+				c.Violate(fmt.Sprintf("close (%s, dialling, DIAL-ASYNCH %v): %d goroutine(s) of the library remain 3 s after Socket.Close while an outbound connection was shaking hands with a silent peer: %s", tr.name, asynch, len(libs), strings.Join(libs, " | ")),
+					map[string]interface{}{"transport": tr.name, "goroutines": libs})
+			}
+			_ = conn.Close()
+			_ = ln.Close()
+			c10settle()
+		}
+	}
+}
+
 // several peers have completed the handshake but have not been accepted yet (the accept loop is held up inside an
 // Attaching hook) when the socket is closed: every one of those connections must be closed
 func c10QueuedHandshakes(c *Ctx) {
